@@ -93,3 +93,10 @@ def run(ctx):
                                len(set(info["row_tags"].tolist())) >= 2)))
         for key, msg in session.check_logprob_columns(pb, opts, S["ret"], info["row_tags"], S["ll_lib"]):
             ctx.violation(key, msg, desc)
+
+    # a monitor that could not recognise the recorded draw pattern has not judged that session: if that happens often the
+    # verdict is "inconclusive", never "held"
+    _skipped = ctx.counters.get("pattern_not_found", 0) + ctx.counters.get("sessions_without_row_identity", 0) \
+        + ctx.counters.get("rejection_sessions_without_row_identity", 0) + ctx.counters.get("iterative_sessions_without_row_identity", 0)
+    if ctx.replay is None and _skipped > 0.25 * (2 * n):
+        ctx.inconclusive = "%d of %d sessions could not be judged (draw pattern or row identity not recognised)" % (_skipped, 2 * n)
